@@ -398,6 +398,37 @@ func (f *Frame) specCall(st *State, e *ast.CallExpr, kind string) []*Term {
 		}
 		h := c.heapGet(st, map[string]string{"itPos": "IT!pos", "itLen": "IT!len"}[kind], ArrSort(SInt, SInt))
 		return []*Term{Select(h, v)}
+	case kind == "itIndexOfKey":
+		// itIndexOfKey(it, k): the position at which the iterator's snapshot enumerates the row filed under key k
+		// (meaningful for keys of rows the snapshot contains; the memdb model states 0 <= index < itLen for those)
+		v := f.expr(st, e.Args[0])
+		if v.Sort == SIfc {
+			v = ifaceRef(v)
+		}
+		fn, ok := c.itPosFn[v.Op]
+		if !ok {
+			// the variable may hold ite(failed, nil, iterator): find the one iterator object mentioned in the term
+			var walk func(t *Term)
+			found := map[string]bool{}
+			walk = func(t *Term) {
+				if _, is := c.itPosFn[t.Op]; is && len(t.Args) == 0 {
+					found[t.Op] = true
+				}
+				for _, a := range t.Args {
+					walk(a)
+				}
+			}
+			walk(v)
+			if len(found) == 1 {
+				for k := range found {
+					fn, ok = c.itPosFn[k], true
+				}
+			}
+		}
+		if !ok {
+			f.fail(e, "itIndexOfKey: the iterator is not a direct result of a modelled Get in this function")
+		}
+		return []*Term{App(fn, SInt, f.expr(st, e.Args[1]))}
 	case kind == "itElem":
 		v := f.expr(st, e.Args[0])
 		if v.Sort == SIfc {
